@@ -356,3 +356,27 @@ M('c13-sync-readline-fabricates-newline', 'C13', 'R16', _SR, "            return
 # variant: the bump alone (the newline is then delivered twice)
 M('c13-sync-readline-bumps-cursor-and-reads', 'C13', 'R16', _SR, "            return result + self.read(1)\n",
   "            self._buffer_pos += 1\n            return result + self.read(1)\n", also=('C14',))
+
+
+# ---- second preserving wave (k2-c13-1): `try: boundary = options['boundary'] except KeyError: raise HTTPInvalidHeader` became the
+# pre-check `if 'boundary' not in options: raise ...` + the plain subscript; R3 accepts a read dominated by a membership test of the
+# same key in the same mapping.  "refactoring + break" mutants:
+_EAFP = ("        try:\n            boundary = options['boundary']\n        except KeyError:\n            raise errors.HTTPInvalidHeader(\n"
+         "                'No boundary specifier found in {!r}'.format(content_type),\n                'Content-Type',\n            )\n")
+_RAISE = ("            raise errors.HTTPInvalidHeader(\n                'No boundary specifier found in {!r}'.format(content_type),\n"
+          "                'Content-Type',\n            )\n")
+# the pre-check tests another key
+M('c13-k2-boundary-precheck-other-key', 'C13', 'R3', SYNC, _EAFP,
+  "        if 'Boundary' not in options:\n" + _RAISE + "        boundary = options['boundary']\n")
+# the pre-check has the polarity lost (raises when the key IS there; reads it when it is not)
+M('c13-k2-boundary-precheck-inverted', 'C13', 'R3', SYNC, _EAFP,
+  "        if 'boundary' in options:\n" + _RAISE + "        boundary = options['boundary']\n")
+# the key is removed between the test and the read
+M('c13-k2-boundary-popped-after-precheck', 'C13', 'R3', SYNC, _EAFP,
+  "        if 'boundary' not in options:\n" + _RAISE + "        options.pop('boundary')\n        boundary = options['boundary']\n")
+# the pre-check only warns (no raise): the read is not dominated by the "present" edge
+M('c13-k2-boundary-precheck-does-not-leave', 'C13', 'R3', SYNC, _EAFP,
+  "        if 'boundary' not in options:\n            content_type = content_type.strip()\n        boundary = options['boundary']\n")
+# negative controls (silent): preserving/k2-c13-1; `if 'boundary' in options: boundary = options['boundary'] / else: raise`;
+# `_BOUNDARY = 'boundary'` local + `if not (_BOUNDARY in options and options[_BOUNDARY]): raise`; `n == 0 or 70 < n`;
+# `max_body_part_count > 0 and remaining_parts < 0` in both parsers
